@@ -143,6 +143,11 @@ def step (_ : Unit) (l : Line) : Unit × String :=
     | some s, some p, some ch =>
       out (fmtE (fmtPtr p) (strrchr ct s p ch)) (fmtRel (Spec.strrchr s p (Spec.toUnit ct.bits ch)))
     | _, _, _ => bad
+  | "strrchr0" =>
+    -- null `str`: tetl returns null; ISO C leaves the call undefined, so the spec column is the mask `*`
+    match l.int? "ch" with
+    | some ch => out (fmtE (fun r => if r.isNone then "null" else "nonnull") (strrchrP ct none ch)) "*"
+    | _ => bad
   | "memchr" =>
     match l.natList? "s", l.nat? "off", l.int? "ch", l.nat? "n" with
     | some s, some p, some ch, some n =>
@@ -196,6 +201,18 @@ def step (_ : Unit) (l : Line) : Unit × String :=
     match l.natList? "buf", l.nat? "doff", l.nat? "soff", l.nat? "n" with
     | some b, some d, some s, some n => out (fmtE (fmtW d) (memmove b d s n)) (fmtWS (Spec.memmove b d s n))
     | _, _, _, _ => bad
+  | "memmove2" =>
+    -- two allocations: the direction `ps < pd` picks is unspecified; both must give the same result
+    match l.natList? "dst", l.nat? "doff", l.natList? "src", l.nat? "soff", l.nat? "n" with
+    | some dst, some d, some src, some s, some n =>
+      let fw := fmtE (fmtW d) (memmove2 false dst d src s n)
+      let bk := fmtE (fmtW d) (memmove2 true dst d src s n)
+      out (if fw == bk then fw else s!"direction-dependent(fwd={fw},back={bk})") (fmtWS (Spec.memcpy dst d src s n))
+    | _, _, _, _, _ => bad
+  | "memcpy1" =>
+    match l.natList? "buf", l.nat? "doff", l.nat? "soff", l.nat? "n" with
+    | some b, some d, some s, some n => out (fmtE (fmtW d) (memcpy1 b d s n)) (fmtWS (Spec.memmove b d s n))
+    | _, _, _, _ => bad
   | "div" =>
     match l.nat? "bits", l.int? "x", l.int? "y" with
     | some bits, some x, some y =>
@@ -205,7 +222,24 @@ def step (_ : Unit) (l : Line) : Unit × String :=
     match l.nat? "bits", l.int? "x" with
     | some bits, some x => out (fmtE toString (absImpl bits x)) (toString (Spec.abs x))
     | _, _ => bad
-  | _ => bad
+  | f =>
+    -- `<function> c=<arg>`: a <cctype> / <cwctype> line named by its function
+    match ctypeM f (l.int? "c" |>.getD 0), wctypeM f (l.nat? "c" |>.getD 0) with
+    | some _, _ =>
+      match l.int? "c" with
+      | some c =>
+        match ctypeM f c, ctypeS f c, ctypeG f c with
+        | some m, some s, some g => if g == m then out m s else out s!"{m}!gen={g}" s
+        | _, _, _ => bad
+      | _ => bad
+    | _, some _ =>
+      match l.nat? "c" with
+      | some c =>
+        match wctypeM f c, wctypeS f c, wctypeG f c with
+        | some m, some s, some g => if g == m then out m s else out s!"{m}!gen={g}" s
+        | _, _, _ => bad
+      | _ => bad
+    | _, _ => bad
 
 end Tetl.C18.Driver
 
